@@ -460,14 +460,14 @@ macro_rules! ckks_backend {
                     let canary = xbuf.as_ref().unwrap().unchanged_except(xsnap.as_ref().unwrap(), &[(0, decl)]);
                     let tj: Vec<Value> = takes.iter().map(|&(a, l, t)| json!([a as i64 - xbase as i64, l, t])).collect();
                     // "the maximum over a set of operations serves all of them": what ckks_all_ops_with_atk_tmp_bytes returns for the
-                    // largest ciphertext layout of the program and this step's plaintext precision (-1: the operation is not in its set)
+                    // largest ciphertext layout among the registers (re-allocation can exceed the program's kmax) and this step's plaintext precision (-1: the operation is not in its set)
                     let covered = matches!(op.as_str(), "enc" | "add_into" | "add_assign" | "sub_into" | "sub_assign" | "neg_into" | "neg_assign" | "mul_pow2_into" | "mul_pow2_assign"
                         | "div_pow2_into" | "div_pow2_assign" | "rescale_into" | "rescale_assign" | "align" | "mul_into" | "mul_assign" | "square_into" | "square_assign"
                         | "add_ptz_into" | "add_ptz_assign" | "sub_ptz_into" | "sub_ptz_assign" | "add_ptv_into" | "add_ptv_assign" | "sub_ptv_into" | "sub_ptv_assign"
                         | "add_ptc_into" | "add_ptc_assign" | "sub_ptc_into" | "sub_ptc_assign" | "add_ptcz_into" | "add_ptcz_assign" | "sub_ptcz_into" | "sub_ptcz_assign"
                         | "mul_ptz_into" | "mul_ptz_assign" | "mul_ptv_into" | "mul_ptv_assign" | "mul_ptc_into" | "mul_ptc_assign" | "mul_ptcz_into" | "mul_ptcz_assign"
                         | "rot_into" | "rot_assign" | "conj_into" | "conj_assign");
-                    let all: i64 = if covered { m.ckks_all_ops_with_atk_tmp_bytes(&glwe(kmax), &tsk_infos, &atk_infos, &pprec) as i64 } else { -1 };
+                    let all: i64 = if covered { m.ckks_all_ops_with_atk_tmp_bytes(&glwe(kmax.max(regs.iter().flatten().map(|r| r.max_k().0).max().unwrap_or(0))), &tsk_infos, &atk_infos, &pprec) as i64 } else { -1 };
                     json!({"call": op, "decl": decl, "len": decl, "exact": true, "takes": tj, "canary": canary, "all": all, "panic": match &r { Err(p) => p.chars().take(80).collect::<String>(), _ => String::new() }})
                 } else { json!({}) };
                 let status = match &r {
